@@ -1314,6 +1314,57 @@ func runFsCrash(o opts) error {
 			Desc: map[string]interface{}{"session": sid, "history": ins, "with_flush": flush, "first_finish_failed": failed, "stored_after_retry": got, "stored_without_failure": want}})
 	}
 
+	// (2c') the same history on the filesystem store (handle shared with application data, touched between
+	// creating the persister and the request; connected again now and then) and on a memory store
+	nsame := 3 + o.n/10
+	for i := 0; i < nsame; i++ {
+		r := hx.Rng(o.seed, "fscrash-same", i)
+		sid := []string{"s0", "ab", "sess"}[r.Intn(3)]
+		ins := fcGenInputs(r, 3+r.Intn(5))
+		base, err := os.MkdirTemp("/tmp", "fscrash-same-")
+		if err != nil {
+			return err
+		}
+		dir := filepath.Join(base, "store")
+		os.Mkdir(dir, 0700)
+		ctx := context.Background()
+		mem := memdb.NewMemDb()
+		mem.Connect(ctx, "")
+		serve := func(mk func() db.Db, touch bool) string {
+			var sb strings.Builder
+			for k, in := range ins {
+				hx.Recover(func() {
+					store := mk()
+					pe := persist.NewPersister(store)
+					if touch {
+						store.SetPrefix(db.DATATYPE_USERDATA)
+						store.Put(ctx, []byte("visits"), []byte{byte(k)})
+						if k%2 == 1 {
+							store.Connect(ctx, dir)
+						}
+					}
+					en := engine.NewEngine(fcCfg(sid), fcResource()).WithPersister(pe)
+					cont, err := en.Exec(ctx, []byte(in))
+					w := bytes.NewBuffer(nil)
+					_, ferr := en.Flush(ctx, w)
+					fin := en.Finish(ctx)
+					sb.WriteString(fcPtrRe.ReplaceAllString(fmt.Sprintf("cont=%v err=%v out=%q ferr=%v fin=%v\n", cont, err, w.String(), ferr, fin), "@PTR"))
+				})
+			}
+			pe := persist.NewPersister(mk()).WithContent(state.NewState(4), cache.NewCache())
+			if err := pe.Load(sid); err != nil {
+				return sb.String() + "load-error"
+			}
+			return sb.String() + fmt.Sprintf("code=%x path=%q bits=%d idx=%d flags=%x | use=%d cache=%v last=%q", pe.State.Code, pe.State.ExecPath, pe.State.BitSize, pe.State.SizeIdx, pe.State.Flags, pe.Memory.CacheUseSize, pe.Memory.Cache, pe.Memory.LastValue)
+		}
+		got := serve(func() db.Db { f := fsdb.NewFsDb(); f.Connect(ctx, dir); return f }, true)
+		want := serve(func() db.Db { return mem }, false)
+		os.RemoveAll(base)
+		w.Add(hx.Case{Term: fmt.Sprintf("FSame %s %s", hx.S(got), hx.S(want)), Kind: "shared-handle-history",
+			Key:  fmt.Sprintf("same-%s-%v", sid, ins),
+			Desc: map[string]interface{}{"session": sid, "history": ins, "fs_with_shared_handle": got, "mem": want}})
+	}
+
 	// (2d) a save whose write FAILS (ENOSPC injected into the first write of the real Put): the error must be
 	// reported and the previous record must still be the session's record
 	nwf := 2 + o.n/20
